@@ -82,6 +82,15 @@ func runC14(e *Engine, g G, o RunOpt) RunInfo {
 			sv.Cert = CertGood
 			// what is advertised before TLS says nothing about what is on offer afterwards
 			sv.MechsTLS = c14Mechs(g, "mechtls")
+			if g.Pct("injected-behind-proceed", 30) {
+				// clear text injected right behind <proceed/> (same segment): a stream header with a mechanism
+				// list of the attacker's liking, or a <success/>. The authenticated server said none of it.
+				sv.ProceedTrailer = []string{
+					"<?xml version='1.0'?><stream:stream id='injected' from='" + SimDomain + "' xmlns='jabber:client' xmlns:stream='" + nsStream + "' version='1.0'><stream:features><mechanisms xmlns='" + nsSASL + "'><mechanism>PLAIN</mechanism><mechanism>X-OAUTH2</mechanism></mechanisms></stream:features>",
+					"<success xmlns='" + nsSASL + "'/>",
+					"<stream:features><mechanisms xmlns='" + nsSASL + "'><mechanism>PLAIN</mechanism><mechanism>X-OAUTH2</mechanism></mechanisms></stream:features>",
+				}[g.N("injected-what", 3)]
+			}
 		}
 		if g.Pct("authdev", 45) {
 			sv.AuthReply = 1 + g.N("authreply", 5)
